@@ -352,15 +352,25 @@ def run_history(sc, ops):
                     sel = anc_closure(sc, T); kw = dict(cache_deps_of=ids(T))
                 rec["out"] = attempt(lambda: d.executor(cache_in=path, **kw)(*op["args"]))
                 rec["entered"], rec["dups"] = counters_delta(before, tag, n)
-                rec["line"] = len(lines); lines.append("O %d call %d %s %d %s" % (inst, len(sel), " ".join(map(str, sel)), len(op["args"]),
-                                                       " ".join(enc(a) for a in op["args"])))
+                # the model runs the executor object itself (VM.xRun) and predicts the file it writes
+                mslot = slot if slot is not None else 100 + len(lines)
+                nonc = sorted(T) if mode == "deps" else []
+                rec["line"] = len(lines); lines.append("O %d xcache %d %d %s %d %s %d %s" % (
+                    inst, mslot, len(sel), " ".join(map(str, sel)), len(nonc), " ".join(map(str, nonc)), len(op["args"]),
+                    " ".join(enc(a) for a in op["args"])))
                 records.append(rec)
                 if rec["out"][0] != "OK":
                     continue
                 with open(path, "rb") as f:
-                    cached_keys = set(pickle.load(f).keys())   # noqa: S301
+                    content = pickle.load(f)   # noqa: S301
+                cached_keys = set(content.keys())
                 cached = sorted(i for i in range(n) if "n%d" % i in cached_keys)
                 rec["cached"] = cached
+                # what the pickle really holds, in the model's vocabulary: node i -> value; n, n+1 = the parameters x, y
+                rec["file"] = {str(i): render(content["n%d" % i]) for i in cached}
+                for j, u in zip((n, n + 1), d.input_uxns):
+                    if u.id in content:
+                        rec["file"][str(j)] = render(content[u.id])
                 if mode == "deps":
                     rec["deps_of"] = T
                 # restart
@@ -379,9 +389,8 @@ def run_history(sc, ops):
                 rec2["out"] = attempt(lambda: d.executor(from_cache=path, **kw2)(*rargs))
                 rec2["entered"], rec2["dups"] = counters_delta(before2, tag, n)
                 rec2["first_value"] = rec["out"][1]
-                rec2["line"] = len(lines); lines.append("O %d seeded %d %s %d %s %d %s" % (inst, len(sel2), " ".join(map(str, sel2)), len(cached),
-                                                               " ".join(map(str, cached)), len(op["args"]),
-                                                               " ".join(enc(a) for a in op["args"])))
+                rec2["line"] = len(lines); lines.append("O %d xrestart %d %d %s %d %s" % (
+                    inst, mslot, len(sel2), " ".join(map(str, sel2)), len(rargs), " ".join(enc(a) for a in rargs)))
                 records.append(rec2)
             finally:
                 if slot is None:
